@@ -34,7 +34,7 @@ ASSUMPTIONS = [
 MOD = "dagrt.transform"
 
 
-def check(run, P):
+def _check_main(run, P):
     run.rule("C16.pred", "the renaming predicate reaches disambiguate_and_fuse; its "
              "default protects exactly the persistent name classes", minimum=4)
     run.rule("C16.fields", "with include_lhs=True every read/written/bound-name path "
@@ -382,3 +382,9 @@ def _phases(run, P):
            construct=f"a phase present on one side only is returned as it is "
                      f"(returns: {sorted(v for v in vals if v)}); no path returns nothing",
            why="dropping or emptying a one-sided phase loses that method's statements")
+
+
+def check(run, P):
+    _check_main(run, P)
+    from . import generic
+    generic.lints(run, P, "C16")
